@@ -190,6 +190,34 @@ func pdfSingleFaults(b *base, emit func(desc string, data []byte)) {
 			}
 		}
 	}
+	// offset-valued trailer keys pointed at the cross-reference sections of the file
+	// itself (the section that carries the key, and every other one): /Prev chains and
+	// hybrid-reference /XRefStm links that lead back to where the reader already is
+	var sections []string
+	for _, f := range b.fields {
+		if f.Kind == "startxref" {
+			sections = append(sections, string(d[f.Start:f.End]))
+		}
+	}
+	for _, marker := range []string{"trailer", "/Type /XRef", "/Type/XRef"} {
+		for idx := 0; ; {
+			i := bytes.Index(d[idx:], []byte(marker))
+			if i < 0 {
+				break
+			}
+			at := idx + i
+			idx = at + len(marker)
+			k := bytes.Index(d[at:], []byte("/Size"))
+			if k < 0 || k > 400 {
+				continue
+			}
+			for _, off := range sections {
+				for _, key := range []string{"XRefStm", "Prev"} {
+					emit(fmt.Sprintf("trailer-key /%s %s injected@%d", key, off, at+k), splice(d, at+k, at+k, []byte("/"+key+" "+off+" ")))
+				}
+			}
+		}
+	}
 	for _, o := range objs {
 		emit(fmt.Sprintf("object-drop %d", o.num), splice(d, o.start, o.end, nil))
 		emit(fmt.Sprintf("object-dup %d", o.num), splice(d, o.end, o.end, append([]byte("\n"), d[o.start:o.end]...)))
